@@ -338,8 +338,9 @@ def report(prop, tier, seed, mod, hmap, results, wall):
         "wall_s": round(wall, 2),
         "violations": sum(len(r["violations"]) for r in violations),
     }
-    os.makedirs(os.path.join(VERIF, "evidence"), exist_ok=True)
-    with open(os.path.join(VERIF, "evidence", "%s.json" % prop), "w") as f:
+    evdir = os.environ.get("VERIF_EVIDENCE_DIR") or os.path.join(VERIF, "evidence")
+    os.makedirs(evdir, exist_ok=True)
+    with open(os.path.join(evdir, "%s.json" % prop), "w") as f:
         json.dump(ev, f, indent=1, default=str)
     for l in known_lines:
         print(l)
